@@ -46,6 +46,7 @@ class Case(tq.Raw):
         self.first_fail = first_fail
         self.expect = expect        # {'exit': '0'|'1', 'applied': [...], 'tree': {path: (bytes, mode|'link')}, 'rejects': [paths]}
         self.props = tuple(props)   # properties whose checks use the case
+        self.loud = False           # run without -q (the failure report is part of what is exercised)
 
 
 def cases():
@@ -153,6 +154,28 @@ def cases():
                     {'p0.patch': ghost, 'p1.patch': b'diff --git a/keep b/empty/dir/ghost\nrename from keep\nrename to empty/dir/ghost\n' + mod(b'g', b'g', 2, b'X', bad=True)}, ['p0.patch', 'p1.patch'],
                     ['hunkless-entry-for-a-missing-file', 'file-renamed-onto-it-by-the-failing-patch'], first_fail=1, props=('C05', 'C06', 'C09'),
                     expect={'exit': '1', 'applied': ['p0.patch'], 'tree': dict(F), 'rejects': ['g.rej'], 'dirs': ['empty/', 'empty/dir/']}))
+
+    # ---- default verbosity: the failing patch names a file twice and an earlier patch of the same push touched it - the failure
+    # report takes earlier patches back on a copy to see what would help, and that trial may not go through
+    L8 = [b'f%d' % i for i in range(8)]
+
+    def h8(cur, i, new_, wrong=False):
+        lo, hi = max(0, i - 1), min(8, i + 2)
+        body = b''.join((b'-' + (b'WRONG' if wrong else cur[j]) + b'\n+' + new_ + b'\n') if j == i else (b' ' + cur[j] + b'\n') for j in range(lo, hi))
+        return b'@@ -%d,%d +%d,%d @@\n' % (lo + 1, hi - lo, lo + 1, hi - lo) + body
+    for prev_line, b_line in ((3, 1), (1, 1), (0, 2)):
+        cur = list(L8)
+        p0 = b'--- a/f8\n+++ b/f8\n' + h8(cur, prev_line, b'P')
+        cur[prev_line] = b'P'
+        ea = b'--- a/f8\n+++ b/f8\n' + h8(cur, 1, b'A1') + h8(cur, 6, b'Q', wrong=True)
+        mid = list(cur)
+        mid[1] = b'A1'
+        eb = b'--- a/f8\n+++ b/f8\n' + h8(mid, b_line, b'B')
+        c = Case('failing patch names a file twice (line %d after line 1), an earlier patch changed line %d; default verbosity' % (b_line, prev_line), dict(F, f8=(b''.join(l + b'\n' for l in L8), 0o644)),
+                 {'p0.patch': p0, 'p1.patch': ea + eb, 'p2.patch': mod(b'g', b'g', 2, b'G2')}, ['p0.patch', 'p1.patch', 'p2.patch'],
+                 ['failing-patch-names-the-file-twice', 'default-verbosity'], first_fail=1, props=('C09',))
+        c.loud = True
+        out.append(c)
 
     # ---- known limitation (KF-03): a name that is a file for one patch and a directory for another, within one push
     out.append(Case('file a deleted, then a/b created', dict(F, a=(b'x\ny\n', 0o644)), {'p0.patch': delete(b'a', [b'x', b'y']), 'p1.patch': create(b'a/b', [b'n1', b'n2'])}, ['p0.patch', 'p1.patch'],
